@@ -1225,6 +1225,18 @@ pub fn ast_fault(r: &mut Rng, ds: &[Directive]) -> Vec<Directive> {
                 }
             }
         }
+        3 if r.chance(1, 2) => {
+            // the FIRST $ORIGIN loses its final dot (or becomes `@`): a relative name with nothing to be
+            // relative to - the file is to be rejected, not read against the root
+            if let Some(i) = v.iter().position(|d| matches!(d, Directive::Origin(_))) {
+                if let Directive::Origin(n) = &mut v[i] {
+                    *n = match n.clone() {
+                        NameRef::Abs(ls) if !ls.is_empty() && r.chance(3, 4) => NameRef::Rel(ls),
+                        _ => NameRef::At,
+                    };
+                }
+            }
+        }
         3 => {
             // remove every $ORIGIN
             v.retain(|d| !matches!(d, Directive::Origin(_)));
